@@ -252,11 +252,32 @@ func c14Eval(p *Program, r *Report) {
 	for _, a := range allow {
 		cutA = append(cutA, a.holds)
 	}
+	// the evaluator answers with a bool or with an effect value: "allowing" is the constant true or the constant
+	// "Allow", anything else that is a constant is a refusal
+	allowing := func(v ssa.Value) (allow, known bool) {
+		if b, ok := constBool(v); ok {
+			return b, true
+		}
+		if sv, ok := constString(v); ok {
+			return sv == "Allow", true
+		}
+		return false, false
+	}
 	sites := []*ssa.BasicBlock{}
 	for _, ret := range returnsOf(f) {
-		sites = append(sites, trueSites(ret.Results[0])...)
-		if b, ok := constBool(ret.Results[0]); ok && b {
-			sites = append(sites, ret.Block())
+		for _, lf := range valueLeaves(ret.Results[0], ret.Block()) {
+			if a, known := allowing(lf.val); known && a && lf.from != nil {
+				sites = append(sites, lf.from)
+			}
+		}
+		for _, s := range trueSites(ret.Results[0]) { // stores of true into a result cell
+			dup := false
+			for _, q := range sites {
+				dup = dup || q == s
+			}
+			if !dup {
+				sites = append(sites, s)
+			}
 		}
 	}
 	// (a) the constant true reaches the result only through allow ∧ every matcher's true edge
@@ -284,7 +305,7 @@ func c14Eval(p *Program, r *Report) {
 			if !reach[ret.Block()] {
 				continue
 			}
-			if b, isC := constBool(ret.Results[0]); !isC || b {
+			if a, known := allowing(ret.Results[0]); !known || a {
 				ok = false
 			}
 		}
@@ -303,6 +324,19 @@ func c14Eval(p *Program, r *Report) {
 		for _, cb := range condBranches(c.Value()) {
 			if cb.whenTrue {
 				cut = append(cut, cb.e)
+			}
+		}
+		// an effect value: the edge on which it equals "Allow"
+		for _, ce := range condEdgesOf(vb) {
+			if !ce.isEqNeq || ce.binop == nil {
+				continue
+			}
+			for _, pr := range [][2]ssa.Value{{ce.binop.X, ce.binop.Y}, {ce.binop.Y, ce.binop.X}} {
+				if pr[0] == c.Value() {
+					if sv, ok := constString(pr[1]); ok && sv == "Allow" {
+						cut = append(cut, ce.holds)
+					}
+				}
 			}
 		}
 	}
